@@ -634,7 +634,12 @@ fn case_destroy_race(out: &mut CaseOut, seed: u64, idx: u64) {
             out.nontrivial(format!("destroy-race/{fsname}/before-{call}/open-won"));
         }
         (Some(call), None) => {
-            // the open was refused: destroy owned the path. Afterwards the path is free.
+            // the open was refused: destroy owned the path. A refused attempt must leave no trace, so
+            // the destroy call it ran into finishes as if it had been alone - successfully
+            if let Err(e) = &destroy_result {
+                out.violate("C17/refused-open-made-the-destroy-in-progress-fail", json!({"ctx": ctx, "destroy_error": e, "left_behind": listing(&scratch.dir)}));
+            }
+            // afterwards the path is free
             match DB::open(options(&fs, &db_path, memtable)) {
                 Ok(db) => {
                     if destroy_result.is_ok() {
@@ -730,7 +735,25 @@ fn verify_contents(out: &mut CaseOut, db: &DB, model: &BTreeMap<Vec<u8>, Vec<u8>
     }
 }
 
+/// Being refused is the ordinary outcome of an open on a database in use: it is reported by an
+/// error, not by a thread that dies with a panic in the process that hosts the running instance.
+fn judge_panics_of_refused_opens(out: &mut CaseOut) {
+    let dead: Vec<_> = watch::bg_panics().into_iter().filter(|p| p.message.contains("RecvError")).collect();
+    if !dead.is_empty() {
+        out.violate(
+            "C17/refused-open-panicked-a-background-thread",
+            json!({"panics": dead.len(), "first": {"thread": dead[0].thread, "message": dead[0].message, "location": dead[0].location}}),
+        );
+    }
+}
+
 pub fn run_case(tier: &str, seed: u64, idx: u64) -> CaseOut {
+    let mut out = run_case_inner(tier, seed, idx);
+    judge_panics_of_refused_opens(&mut out);
+    out
+}
+
+fn run_case_inner(tier: &str, seed: u64, idx: u64) -> CaseOut {
     let mut out = CaseOut::new();
     let before_parked_close = n_rounds_cases(tier) + n_destroy_cases(tier) + n_spin_cases(tier) + n_nested_cases(tier);
     if idx >= before_parked_close {
